@@ -110,7 +110,7 @@ func runG(c GCase) error {
 }
 
 func TestGatedSchedules(t *testing.T) {
-	fx.Run(t, fx.Spec[GCase]{Prop: "C09", Name: "gated_udp_late_close", Quick: 64, Thorough: 600, Gen: genG, Run: runG,
+	fx.Run(t, fx.Spec[GCase]{Prop: "C09", Name: "gated_udp_late_close", Journal: true, Quick: 64, Thorough: 600, Gen: genG, Run: runG,
 		Class: func(c GCase) fx.Class {
 			return fx.Class{NonTrivial: true, Fingerprint: fmt.Sprint(c), Labels: []string{fmt.Sprintf("same=%v", c.SameSession)}}
 		}})
